@@ -9,7 +9,7 @@ import datetime
 import logging
 import math
 import struct
-from typing import AbstractSet, Set, cast
+from typing import AbstractSet, ClassVar, Set, cast
 
 import flask  # type: ignore
 
@@ -201,6 +201,9 @@ class ManifestContext:
         # multi-period presentation is the sum of its Period durations
         self.mediaDuration = start
 
+    # largest number of Period elements in a live multi-period manifest
+    MAX_LIVE_PERIODS: ClassVar[int] = 2000
+
     def create_all_live_periods(self,
                                 multi_period: models.MultiPeriodStream) -> None:
         duration = multi_period.total_duration()
@@ -222,6 +225,15 @@ class ManifestContext:
         start: datetime.timedelta = duration * num_loops
         periods: list[models.Period] = list(multi_period.periods)
         index: int = 0
+        # every pass through the periods that ends inside the time shift
+        # buffer adds a Period element for each of them to the manifest
+        num_periods = len(periods) * (1 + int(
+            (timing.elapsedTime - start).total_seconds() //
+            duration.total_seconds()))
+        if num_periods > self.MAX_LIVE_PERIODS:
+            raise ManifestNotAvailable(
+                f'timeShiftBufferDepth {timing.timeShiftBufferDepth} would need ' +
+                f'{num_periods} periods (maximum {self.MAX_LIVE_PERIODS})')
         # todo: datetime.timedelta = self.now - oldest_frag
         while start <= timing.elapsedTime:
             prd = periods[index]
